@@ -57,7 +57,7 @@ META = {
     'rule': ('literals: exhaustive over a 14-symbol alphabet (both quotes, backslash, newline, CR, tab, NUL, DEL, brace, '
              'letters, non-ASCII) up to length 3 (quick) / 4 (thorough) + random; literal reader: exhaustive bodies up to '
              'length 4 (thorough: + 40000 of length 5) + mutations; models: random dataclass models x engines {v0, v1, env} x {plain, JSONWizard}, each '
-             'with 3 renamings (fields->internal names/builtins, types->builtins or equal names, strings->hostile text); '
+             'with 4 renamings (derived-name collisions, fields->internal names/builtins, types->builtins or equal names, strings->hostile text); '
              'distinct = distinct (model, renaming) / distinct string; non-trivial = the renaming changes at least one '
              'identifier that occurs in generated code or one spliced string (models), the string needs an escape (literals).'),
     'trusted_base': ['model coq/model/GenPyLit.v (repr / literal lexer; bytes >= 128 transparent)',
@@ -248,9 +248,12 @@ class Gen:
                 f['path'] = [self.t('k') for _ in range(r.choice([1, 2, 2, 3]))]
             elif x < 0.42 and eng == 'v1':
                 f['aliases'] = [self.t('k') for _ in range(r.choice([2, 3]))]
-            elif x < 0.50 and eng == 'v0' and isinstance(f['type'], str) and f['type'] in ('int', 'str'):
-                f['skip_if'] = r.choice([['truthy'], ['falsy'], ['eq', 3], ['isnone'], ['eqc', '1.5']])
-            elif x < 0.54 and eng == 'v0':
+                r.shuffle(f['aliases'])     # declaration order is what counts, not the spelling
+            elif x < 0.54 and isinstance(f['type'], str) and f['type'] in ('int', 'str'):
+                # the dumper is shared by both engines; 'eqc' = a value passed through a closure variable
+                f['skip_if'] = r.choice([['truthy'], ['falsy'], ['eq', 3], ['isnone'], ['eqc', '1.5'], ['eqc', '1.5'],
+                                         ['eqc', '2.5']])
+            elif x < 0.58 and eng == 'v0':
                 f['nodump'] = True
             if r.random() < 0.4 or f.get('nodump'):
                 f['default'] = self.default_for(f['type'])
@@ -408,7 +411,12 @@ class Gen:
                     d = d.setdefault(c, {})
                 d[f['path'][-1]] = v
             elif f.get('aliases'):
-                doc[r.choice(f['aliases'])] = v
+                if r.random() < 0.6:
+                    # several aliases present with DIFFERENT values: the first declared one wins
+                    for a in r.sample(f['aliases'], r.choice([2, len(f['aliases'])])):
+                        doc[a] = self.doc_for(spec, f['type'])
+                else:
+                    doc[r.choice(f['aliases'])] = v
             elif f.get('alias') is not None:
                 doc[f['alias']] = v
             else:
@@ -514,6 +522,59 @@ HOSTILE = ["a'b", 'a"b', 'a\\b', 'a{b}', 'a\nb', 'ünï', "'", '"', '\\', '{', '
            'field', '__tag__x', 'a%(b)s', '\\x41', '\\N{BULLET}', '\x01', 'x' * 70, '{{', '}}', "a''b", '`', 'é']
 
 
+DERIVE = ['if_%s', 'skip_%s', 'skip_if_%s', 'default_%s', 'dflt_%s', 'tp_%s', 'parser_%s', '%s_0', '%s_1', '_%s',
+          '__%s', '%s_']
+
+
+def derived_renaming(r, spec, R):
+    """rename fields of each class INTO names that a plausible derivation scheme could derive from
+    ANOTHER field of the same class (`if_<n>`, `skip_<n>`, `default_<n>`, `<n>_0`, `_<n>` ...), or into
+    the tail of a generator name (`value` of `_skip_value`, `defaults_value`).  The schemes that match
+    a feature that makes the generator create a per-field variable (SkipIf value, default) come first."""
+    m = spec['meta']
+    for t in spec['types']:
+        if t['kind'] != 'dataclass':
+            continue
+        fs = [f for f in t['fields'] if not f.get('catch_all')]
+        if len(fs) < 2:
+            continue
+        wanted = []
+        if (m.get('skip_if') or [''])[0] == 'eqc':
+            wanted.append('value')
+        if (m.get('skip_defaults_if') or [''])[0] == 'eqc':
+            wanted.append('defaults_value')
+        for a in fs:
+            n = R.get(a['name'], a['name'])
+            if (a.get('skip_if') or [''])[0] == 'eqc':
+                wanted += [r.choice(['if_%s', 'skip_if_%s']) % n]
+            if a.get('default') is not None and r.random() < 0.5:
+                wanted += [r.choice(['default_%s', 'dflt_%s']) % n]
+        for _ in range(2):
+            a = r.choice(fs)
+            wanted.append(r.choice(DERIVE) % R.get(a['name'], a['name']))
+        if r.random() < 0.3:
+            wanted.append(r.choice(['value', 'defaults_value']))
+        r.shuffle(wanted)
+        taken = {R.get(f['name'], f['name']) for f in t['fields']}
+        free = [f for f in fs]
+        r.shuffle(free)
+        for c in wanted:
+            if not free:
+                break
+            if not (c.isidentifier() and c not in KW and c not in taken):
+                continue
+            # the target must not be the field the name was derived from
+            cand = [f for f in free if not c.endswith(R.get(f['name'], f['name'])) and not c.startswith(R.get(f['name'], f['name']))]
+            if not cand:
+                continue
+            b = cand[0]
+            free.remove(b)
+            taken.discard(R.get(b['name'], b['name']))
+            R[b['name']] = c
+            taken.add(c)
+    return R
+
+
 def make_renaming(r, spec, flavor):
     """token -> new text.  Field names injective within each class, key strings globally injective."""
     R = {}
@@ -562,6 +623,15 @@ def make_renaming(r, spec, flavor):
         for k in type_tokens:
             if r.random() < 0.85 and pool:
                 R[k] = pool.pop()
+    if flavor == 'derived':
+        if r.random() < 0.4:        # the source field itself may carry a short generator name
+            for t in spec['types']:
+                if t['kind'] == 'dataclass' and t['fields']:
+                    f = r.choice(t['fields'])
+                    c = r.choice(['x', 'v', 'k', 'o', 'i', 'e', 'f', 'tp'])
+                    if c not in {g['name'] for g in t['fields']}:
+                        R[f['name']] = c
+        derived_renaming(r, spec, R)
     if flavor == 'types_same' and len(type_tokens) >= 2:
         # prefer two types of the same kind (two nested dataclasses, two enums)
         by_kind = {}
@@ -901,6 +971,65 @@ def model_exprs_for(spec, res):
     return out
 
 
+def enum_variant(spec):
+    """M': the same model, spelled identically (class, enum, field names), with different enum
+    member VALUES; documents follow.  (value map, M')"""
+    emap = {}
+    for t in spec['types']:
+        if t['kind'] == 'enum':
+            for _, v in t['members']:
+                emap[v] = v + 'q'
+    return emap, rename_tree(spec, emap)
+
+
+def run_sequences(ctx, cases, by_case):
+    """P2 in ONE interpreter: identically spelled but distinct models, and M / r(M), one after the
+    other in both orders; every model must behave as it does in a fresh interpreter."""
+    jobs = []
+    for ci, (spec, rens) in enumerate(cases):
+        base_spec, base = by_case[ci][None]
+        if 'runner_error' in base or base.get('setup') is not None:
+            continue
+        emap, variant = enum_variant(spec)
+        exp_m = [norm_outcome(o) for o in base['ops']]
+        exp_v = [rename_tree(x, emap) for x in exp_m]
+        seq_a = [('M', spec, exp_m), ("M' (same spelling, other enum values)", variant, exp_v)]
+        seq_b = [("M' (same spelling, other enum values)", variant, exp_v), ('M', spec, exp_m)]
+        if rens and 'runner_error' not in by_case[ci][0][1] and by_case[ci][0][1].get('setup') is None:
+            rsp, rres = by_case[ci][0]
+            exp_r = [norm_outcome(o) for o in rres['ops']]
+            seq_a = seq_a[:1] + [('r(M)', rsp, exp_r)] + seq_a[1:] + [('M again', spec, exp_m)]
+            seq_b = [('r(M)', rsp, exp_r)] + seq_b
+        jobs.append((ci, seq_a))
+        jobs.append((ci, seq_b))
+
+    def one(job):
+        try:
+            return ctx.impl('c15', {'kind': 'multi', 'specs': [x[1] for x in job[1]]}, timeout=180)
+        except Exception as e:
+            return {'runner_error': str(e)[-800:]}
+    with cf.ThreadPoolExecutor(max_workers=8 if ctx.tier == 'quick' else 12) as ex:
+        outs = list(ex.map(one, jobs))
+    for (ci, seq), out in zip(jobs, outs):
+        if 'runner_error' in out:
+            ctx.broken_tie('impl runner failed on a model sequence', {'error': out['runner_error']})
+            continue
+        ctx.count(1, key='seq:%d:%s' % (ci, seq[0][0]), nontrivial=True)
+        ctx.hist('sequence', '%d models in one interpreter' % len(seq))
+        for pos, ((label, sp, exp), run) in enumerate(zip(seq, out['runs'])):
+            got = [norm_outcome(o) for o in run['ops']]
+            if run.get('setup') is not None or got != exp:
+                k = next((i for i, (a, b) in enumerate(zip(got, exp)) if a != b), 0)
+                what = ('in one interpreter after %s, model %s behaves differently from a fresh interpreter: op %d gives %s, '
+                        'fresh %s' % (' then '.join(x[0] for x in seq[:pos]) or 'nothing', label, k,
+                                      json.dumps(got[k] if k < len(got) else run.get('setup'))[:250],
+                                      json.dumps(exp[k] if k < len(exp) else None)[:250]))
+                fid = classify(ctx, sp, {'functions': []}, what)
+                report(ctx, fid, what, {'kind': 'multi', 'specs': [x[1] for x in seq], 'expected': [x[2] for x in seq],
+                                        'labels': [x[0] for x in seq]})
+                break
+
+
 def gen_cases(ctx):
     r = ctx.sub_rng('models')
     n = 36 if ctx.tier == 'quick' else 260
@@ -908,7 +1037,10 @@ def gen_cases(ctx):
     for i in range(n):
         eng = ['v0', 'v1', 'v0', 'v1', 'env'][i % 5]
         spec = gen_env_model(r) if eng == 'env' else Gen(r, eng).model()
-        flavors = ['fields', 'strings', 'all'] if eng == 'env' else r.sample(['fields', 'types', 'types_same', 'strings', 'all', 'all'], 3)
+        flavors = (['fields', 'strings', 'derived'] if eng == 'env'
+                   else ['derived', r.choice(['types', 'types', 'types_same', 'all']),
+                         r.choice(['strings', 'strings', 'all']), r.choice(['fields', 'all'])])
+        r.shuffle(flavors)
         rens = []
         for fl in flavors:
             R = make_renaming(r, spec, fl)
@@ -1021,6 +1153,7 @@ def run(ctx):
                 report(ctx, fid, 'renaming (%s) changes behaviour [%s engine]: %s' % (fl, sp['engine'], differs),
                        {'kind': 'rename', 'spec': spec, 'renaming': R})
     ctx.hist('functions_analysed', n_fn)
+    run_sequences(ctx, cases, by_case)
 
     # ---- correspondence: GenNames model vs Python's view of the generated source ----
     if exprs:
@@ -1074,6 +1207,20 @@ def replay(ctx, obj, quiet=False):
         if not fails:
             say('every generated function parses and refers only to names it binds')
         return not fails
+    if kind == 'multi':
+        out = ctx.impl('c15', {'kind': 'multi', 'specs': obj['specs']})
+        ok = True
+        for label, exp, run in zip(obj['labels'], obj['expected'], out['runs']):
+            got = [norm_outcome(o) for o in run['ops']]
+            if run.get('setup') is not None or got != exp:
+                ok = False
+                k = next((i for i, (a, b) in enumerate(zip(got, exp)) if a != b), 0)
+                say('model %s (position %d of %s): op %d gives %s\n   in a fresh interpreter: %s' % (
+                    label, obj['labels'].index(label), obj['labels'], k,
+                    json.dumps(got[k] if k < len(got) else run.get('setup'))[:400], json.dumps(exp[k] if k < len(exp) else None)[:400]))
+        if ok:
+            say('every model of the sequence behaves as in a fresh interpreter')
+        return ok
     if kind == 'nameerror':
         res = ctx.impl('c15', {'kind': 'model', 'spec': obj['spec']})
         bad = [(i, o) for i, o in enumerate(res['ops'])
